@@ -5,6 +5,11 @@ HERE = os.path.dirname(os.path.abspath(__file__))
 ALL = ["C%02d" % i for i in range(1, 19)]
 
 CHECKS = {
+ "C10": dict(
+   technique="TLA+ spec XtDetect; detection traces of xt's own output validated by TLC (Trace_XtDetect!T_Self)",
+   text="xt's own JSON, YAML, MessagePack and TOML output for generated collection-rooted documents is fed back without a source format (slice and readers with several schedules); TLC validates the detection trace and requires the answer to be the format written and the translation to equal the explicit one; TOML only under the statement's side conditions, which are evaluated with independent readers.",
+   note="Documents are sampled from the generators; the TOML side conditions rely on Python's json and PyYAML composer.",
+   design_ref="DESIGN.md 4.2, 6 (C10)"),
  "C02": dict(
    technique="TLA+ contract XtObs; recorded executions (slice vs reader under many read schedules) validated by TLC against Trace_XtObs",
    text="Every recorded translate call (generated streams and mutated inputs, 4 source selections + detection, 4 targets, slice and reader under single-byte, random, document-aligned and mid-token read schedules) is validated by TLC against the XtObs contract: runs that share bytes and formats must end with the same verdict, byte-identical output on success and prefix-comparable output on failure.",
@@ -32,8 +37,8 @@ CHECKS = {
    note="Fault offsets are exhaustive per generated stream; streams themselves are sampled.",
    design_ref="DESIGN.md 4.3, 6 (C12)"),
  "C09": dict(
-   technique="TLA+ spec XtInput model-checked with TLC; every path over the TLC-exported transition relation replayed on the real input handle",
-   text="TLC checks the capture/replay invariants of the rewindable input handle on the complete reachable state graph (all stream lengths up to MaxN, all fault offsets, all short-read patterns); every path of bounded length over the exported transition relation is stepped on the real Handle with result and projection compared after each step.",
+   technique="TLA+ specs XtInput/XtDetect model-checked with TLC; every path over the TLC-exported handle relation replayed on the real input handle; hook traces of real detection runs validated by TLC",
+   text="Detection runs of the real code (hook events for every trial and every capture-reader operation, the harness reader's log, the answer) on generated, mutated and truncated inputs are validated by TLC against XtDetect/XtInput with the handle invariants as INVARIANT, and translate(None) is compared with translate(Some(answer)) in verdict, bytes and error text. TLC checks the capture/replay invariants of the rewindable input handle on the complete reachable state graph (all stream lengths up to MaxN, all fault offsets, all short-read patterns); every path of bounded length over the exported transition relation is stepped on the real Handle with result and projection compared after each step.",
    note="Trusts TLC, the hook wrappers in src/verif.rs (thin, no logic) and the harness reader. Bounded: stream length <= MaxN, path length <= 6 (quick) / 7 (thorough).",
    design_ref="DESIGN.md 4.1, 6 (C09)"),
 }
